@@ -68,7 +68,7 @@ PROPS = {
         },
         "generators": ["C13"],
         "thorough_seeds": 2,
-        "gen_obligations": ["opLength_matches_table", "asm_tables_inverse", "asm_names_prefixed"],
+        "gen_obligations": ["opLength_matches_table", "asm_tables_inverse", "asm_names_prefixed", "TableFacts.asm_names_first_char", "TableFacts.asm_names_nonempty"],
         "rule": "item lists with lengths {1,2,3,74..77,254..257,520,521,(65535..65537)}, every one-byte item, random lists; all byte strings of length <= 2 (quick) / a 3-byte sweep (thorough) through both tokenisers and ASM; every cut position of generated well-formed scripts; raw tails of 0,1,2,3,4,5,40 bytes after a top-level OP_RETURN; OP_RETURN inside conditionals; every opcode alone and in context through ASM. Non-trivial = script/item list of >= 2 bytes.",
         "nontrivial": lambda op, impl: len(op.partition(" ")[2]) >= 4,
         "trusted_base": COMMON_TB + ["fact extractor /verif/extract (opcode tables, constants)"],
